@@ -7,6 +7,7 @@ package parser
 
 import (
 	"fmt"
+	"math"
 	"strconv"
 	"strings"
 	"unicode/utf8"
@@ -471,6 +472,14 @@ func (p *parser) unary() ast.Expression {
 func (p *parser) negate() ast.Expression {
 	for p.matchAny(token.NEGATE) {
 		tok := p.previous()
+		// the smallest Zahl can only be written together with its sign,
+		// because its magnitude alone does not fit into a Zahl
+		if lit := p.peek(); lit.Type == token.INT {
+			if val, err := strconv.ParseInt("-"+lit.Literal, 10, 64); err == nil && val == math.MinInt64 {
+				p.advance()
+				return p.power(&ast.IntLit{Literal: *lit, Value: val})
+			}
+		}
 		rhs := p.negate()
 		return &ast.UnaryExpr{
 			Range: token.Range{
